@@ -183,6 +183,56 @@ fn real_measure(pair: &[(&Message<'static>, &(String, Vec<u8>, bool))]) -> Optio
     Some(out)
 }
 
+/// Real clock with a port that is NOT instantaneous: every port read/write call blocks for `d` before it answers
+/// (stamps are taken when a call ends). The first component is corrected for the blocking of the next message's
+/// first write, so it is the time from the END of this exchange's last write to (at the latest) the START of the
+/// next write; a real sleep can only overshoot, so the figures can only be too large, never too small.
+fn real_measure_slow(pair: &[(&Message<'static>, &(String, Vec<u8>, bool))], d: Duration) -> Option<Vec<(f64, f64, f64)>> {
+    crate::devices::set_slow_port(d);
+    let r = real_measure(pair);
+    crate::devices::set_slow_port(Duration::ZERO);
+    r.map(|mut v| {
+        let n = v.len();
+        for (i, x) in v.iter_mut().enumerate() {
+            if i + 1 < n && x.0 != f64::MAX {
+                x.0 -= d.as_secs_f64();
+            }
+        }
+        v
+    })
+}
+
+const SLOW_PORT_DELAY: Duration = Duration::from_millis(4);
+
+/// Slow-port judgement of one (message, reply) followed by a chunk-count message: lower bounds only.
+fn slow_port_violations(m: &Message<'static>, r: &(String, Vec<u8>, bool)) -> (Vec<V>, Option<(f64, f64, f64)>) {
+    let follow = Message::DataChunksSent(ChunkCount(1));
+    let fr = ("report PageLoaded".to_string(), ref_encode(3, 4, &[0x10], true), false);
+    let pair = [(m, r), (&follow, &fr)];
+    let is_chunk = matches!(m, Message::SendData(..));
+    let got_inprog = reply_due(m) && r.2;
+    let mut vs: Vec<V> = vec![];
+    let mut first = None;
+    // a correct bus pauses at least the bound every time, so one measurement below it is a violation; up to 3 are taken
+    for _ in 0..3 {
+        if let Some(ms) = real_measure_slow(&pair, SLOW_PORT_DELAY) {
+            if first.is_none() {
+                first = Some(ms[0]);
+            }
+            if is_chunk && ms[0].0 < 0.030 {
+                vs.push(("30ms-after-data-chunk", "real-clock-slow-port".into(), format!("{} through a port whose calls block for {:?}: real clock {:.2} ms between the end of the chunk's last write and the start of the next write", msg_str(m), SLOW_PORT_DELAY, ms[0].0 * 1e3)));
+            }
+            if got_inprog && ms[0].1 < 0.100 {
+                vs.push(("100ms-after-in-progress-report", "real-clock-slow-port".into(), format!("{} answered by {} through a port whose calls block for {:?}: real clock {:.2} ms between the end of the last read and returning", msg_str(m), r.0, SLOW_PORT_DELAY, ms[0].1 * 1e3)));
+            }
+            if !vs.is_empty() {
+                break;
+            }
+        }
+    }
+    (vs, first)
+}
+
 /// Confirms candidate violations of a pair on the real clock. Lower bounds: one measurement suffices (sleep can
 /// only take longer); "not delayed": minimum over 5 repetitions must stay below the pacing delay.
 fn confirm_real(m1: &Message<'static>, r1: &(String, Vec<u8>, bool), m2: &Message<'static>, r2: &(String, Vec<u8>, bool), cands: Vec<V>) -> Vec<V> {
@@ -381,6 +431,32 @@ pub fn run(ctx: &Ctx) -> Report {
             }
         }
     }
+    // slow-port pass (after seed C18-w7-1: pauses shortened by the time the port's own calls took): the same lower
+    // bounds through a port whose every read/write call blocks for 4 ms of real time
+    let mut slow_rows = vec![];
+    let mut slow_evals = 0u64;
+    for (i, m) in ks.iter().enumerate() {
+        let is_chunk = matches!(m, Message::SendData(..));
+        let rs: Vec<usize> = if is_chunk { vec![neutral] } else if reply_due(m) { (0..rk.len()).filter(|&r| rk[r].2 && !rk[r].0.starts_with("garbled") && !rk[r].0.starts_with("malformed")).collect() } else { vec![] };
+        for r in rs {
+            if !is_chunk && !matches!(m, Message::QueryState(_)) && r != inprog {
+                continue;
+            }
+            slow_evals += 1;
+            let (vs, first) = slow_port_violations(m, &rk[r]);
+            if let Some(f) = first {
+                if slow_rows.len() < 8 {
+                    slow_rows.push(json!({"message": msg_str(m), "reply": if reply_due(m) { rk[r].0.clone() } else { "-".into() }, "ms_end_of_last_write_to_start_of_next_write": (f.0 * 1e5).round() / 100.0, "ms_end_of_last_read_to_return": (f.1 * 1e5).round() / 100.0}));
+                }
+            } else {
+                rep.machinery_errors.push(format!("slow-port measurement of {} failed", msg_str(m)));
+            }
+            for (clause, class, detail) in vs {
+                all.violation(ID, Violation::new(clause, class, detail, json!({"kind": "real-slow", "m": msg_json(m), "r": {"name": rk[r].0, "line": hex(&rk[r].1), "in_progress": rk[r].2}}), (1 << 41) + i as u64));
+            }
+        }
+    }
+    real_evals += slow_evals;
     all.evals += real_evals;
     all.samples.push(case_json(&ks[0], &rk[neutral], &ks[6], &rk[inprog]));
     all.samples.push(json!({"virtual_event_log_of": "SendData then QueryState answered PageLoadInProgress", "expected": ["Write(frame)", "Sleep(30ms)", "Write(frame)", "Read x N", "Sleep(100ms)"]}));
@@ -390,6 +466,8 @@ pub fn run(ctx: &Ctx) -> Report {
     rep.set("virtual_pairs", json!(virtual_pairs));
     rep.set("real_clock_measurements", json!(real_evals));
     rep.set("real_clock_rows", Value::Array(real_rows));
+    rep.set("slow_port_measurements", json!(slow_evals));
+    rep.set("slow_port_rows", Value::Array(slow_rows));
     rep.set("virtual_candidates_not_confirmed_by_real_clock", json!(unconfirmed));
     if unconfirmed > 0 {
         rep.machinery_errors.push(format!("{} pacing violations seen on the virtual clock were NOT confirmed by the real clock: the sleep seam is being bypassed; the real-clock pass is the verdict", unconfirmed));
@@ -432,6 +510,12 @@ pub fn replay(_ctx: &Ctx, case: &Value) -> Result<Vec<Violation>, String> {
                 out.push(Violation::new("others-not-delayed", "real-clock", "real clock", case.clone(), 0));
             }
             Ok(out)
+        }
+        Some("real-slow") => {
+            let m = msg_from_json(&case["m"]);
+            let r = rd(&case["r"]);
+            let (vs, _) = slow_port_violations(&m, &r);
+            Ok(vs.into_iter().map(|(c, k, d)| Violation::new(c, k, d, case.clone(), 0)).collect())
         }
         _ => Err("unknown case kind".into()),
     }
